@@ -367,3 +367,30 @@ Definition read_order_ok (l : list Z) : bool :=
 
 Lemma source2_order : read_order_ok g2_read_order = true.
 Proof. vm_compute. reflexivity. Qed.
+
+(* classic (MAC-then-encrypt) path, single step: two deliveries from the same receiver state whose
+   authenticated events coincide are `finish` applied to the SAME plaintext packet and tag; they can
+   differ only in the cipher-context state carried on and in a multiple of 2^32 of the length field *)
+Lemma classic_step_packet P r c k T W p ev r' rest ph evh rh resth :
+  p_mode r = Classic c k -> 0 < p_msz r ->
+  read_message P (list Z) ftake r T = Done (p, ev, r') rest ->
+  read_message P (list Z) ftake r W = Done (ph, evh, rh) resth ->
+  ev = evh ->
+  exists size sizeh packet tag m1 m2,
+    ev = EvMac (mac_input (p_seq r) size packet) tag /\ size mod 2 ^ 32 = sizeh mod 2 ^ 32 /\
+    constant_time_bytes_eq (mac_tag P k (p_msz r) (mac_input (p_seq r) size packet)) tag = true /\
+    finish P r m1 size packet ev = Ok (p, ev, r') /\ finish P r m2 sizeh packet ev = Ok (ph, ev, rh).
+Proof.
+  intros Em Hm H1 H2 E. apply deliver_inv in H1. apply deliver_inv in H2. rewrite Em in H1, H2.
+  destruct (H1 Hm) as (sz & pk & tg & m1 & E1 & C1 & F1).
+  destruct (H2 Hm) as (sz2 & pk2 & tg2 & m2 & E2 & _ & F2).
+  rewrite E1 in F1, E. rewrite E2 in F2, E.
+  pose proof (f_equal (fun e => match e with EvMac m _ => m | _ => [] end) E) as Em2.
+  pose proof (f_equal (fun e => match e with EvMac _ t => t | _ => [] end) E) as Et2.
+  cbv beta iota in Em2, Et2. subst tg2. unfold mac_input in Em2.
+  apply app_inv_head in Em2. apply app_inv_len in Em2 as [Es <-]; [|now rewrite !be_encode_length].
+  assert (Hs : sz mod 2 ^ 32 = sz2 mod 2 ^ 32).
+  { apply (f_equal be_decode) in Es. rewrite !be_decode_encode_mod in Es. exact Es. }
+  exists sz, sz2, pk, tg, m1, m2. rewrite E1. repeat split; try assumption.
+  unfold mac_input in *. rewrite <- Es in F2. exact F2.
+Qed.
